@@ -2075,3 +2075,334 @@ def starts_in_range(r: R, chk, qual: str, newton_suffix: str, rule="START-IN-RAN
         chk.ob(rule, f"{qual}: the Newton starts of `{seg(cr.node, 40)}` are inside the interval by construction ({how})", verdict, loc=r.loc(ctx, cr.node),
                detail="" if verdict else f"{qual}: the start parameters are `{seg(src, 60)}`: the last one is lo + (hi - lo) computed in floating point, which can exceed hi by one ulp (0.3 + 4 * (0.9 - 0.3) / 4 > 0.9); the piece is then evaluated outside its interval and point_on_curve raises ValueError instead of returning parameters",
                func=qual, construct="Newton starts not end-exact")
+
+
+# ------------------------------------------------------------------------------------------------
+# TOL-ABSOLUTE: whether two knots are the same knot does not depend on where the interval lies
+_SHIFT_CONTROL = """
+def control(self, node):
+    tolerance = 1e-9 * max(1, abs(node))
+    return sum(abs(node - knot) < tolerance for knot in self)
+"""
+
+
+def _relative_tolerances(fn: ast.FunctionDef, expand):
+    """comparisons `abs(a - b) < T` (any order / operator) whose tolerance T is computed from the data (a name that is not a
+    constant), and isclose / allclose calls that keep a relative tolerance: (node, description)"""
+    out = []
+    params = {a.arg for a in fn.args.args + fn.args.posonlyargs + fn.args.kwonlyargs}
+    loopvars = {x.id for n in ast.walk(fn) if isinstance(n, (ast.For, ast.comprehension)) for x in ast.walk(n.target) if isinstance(x, ast.Name)}
+    for c in ast.walk(fn):
+        if isinstance(c, ast.Compare) and len(c.ops) == 1 and isinstance(c.ops[0], (ast.Lt, ast.LtE, ast.Gt, ast.GtE)):
+            sides = [c.left, c.comparators[0]]
+            dist = [s_ for s_ in sides if isinstance(s_, ast.Call) and seg(s_.func) in ("abs", "np.abs", "np.absolute", "math.fabs") and s_.args and isinstance(s_.args[0], ast.BinOp) and isinstance(s_.args[0].op, ast.Sub)]
+            if len(dist) != 1:
+                continue
+            tol = expand([s_ for s_ in sides if s_ is not dist[0]][0])
+            names = {x.id for x in ast.walk(tol) if isinstance(x, ast.Name) and isinstance(x.ctx, ast.Load)} - {"max", "min", "abs", "np", "math", "float", "Fraction"}
+            data = sorted(n for n in names if n in params or n in loopvars)
+            if data:
+                out.append((c, f"the tolerance `{seg(tol, 40)}` grows with {', '.join(data)}"))
+        elif isinstance(c, ast.Call) and seg(c.func).split(".")[-1] in ("isclose", "allclose") and len(c.args) >= 2:
+            rel = next((k.value for k in c.keywords if k.arg in ("rel_tol", "rtol")), None)
+            if not (isinstance(rel, ast.Constant) and rel.value == 0):
+                out.append((c, f"`{seg(c, 50)}` compares with a relative tolerance"))
+    return out
+
+
+def tol_absolute(r: R, chk, quals: List[str], rule="TOL-ABSOLUTE"):
+    """shift(a) keeps every multiplicity and leaves basis functions and derivatives unchanged (C18; C03 / C09 rely on it), so the
+    test that decides whether two knots / a node and a knot coincide may only depend on their difference: `a == b`, `d != 0`,
+    `abs(a - b) < constant`.  A tolerance scaled by the size of the operands (`1e-9 * max(1, abs(node))`, `math.isclose` with its
+    default rel_tol) merges distinct knots once the interval lies far from the origin (timestamps)."""
+    from .common import expand_locals
+
+    ctl = _relative_tolerances(ast.parse(_SHIFT_CONTROL).body[0], lambda e: expand_locals(type("F", (), {"node": ast.parse(_SHIFT_CONTROL).body[0], "params": ["self", "node"]})(), e))
+    n = 0
+    for q in quals:
+        ctx = r.root(q)
+        fi = ctx.fi
+        n += sum(1 for c in ast.walk(fi.node) if isinstance(c, ast.Compare))
+        for node, why in _relative_tolerances(fi.node, lambda e: expand_locals(fi, e)):
+            chk.ob(rule, f"{q}: `{seg(node, 40)}` decides on the difference alone", False, loc=r.loc(ctx, node),
+                   detail=f"{q}: {why}: two distinct knots (or a node and the next knot) are taken for the same one as soon as the interval lies far enough from the origin — after `shift(1e7)` the multiplicities, `.knots`, the basis functions and the derivative factors change, although a shift must not change any of them",
+                   func=q, construct=f"tolerance relative to the knots: {seg(node, 40)}")
+    chk.ob(rule, f"knot identity is decided on differences with absolute tolerances in {len(quals)} functions ({n} comparisons; positive control {'recognised' if ctl else 'MISSING'})", bool(ctl), loc="",
+           detail="" if ctl else "the positive control of the rule is not recognised any more")
+    return n
+
+
+# ------------------------------------------------------------------------------------------------
+# DEHOMOG-PAIR: the weights stored with dehomogenised control points are the weights they were divided by
+def _strip_wrappers(e):
+    while isinstance(e, ast.Call) and seg(e.func) in ("tuple", "list", "np.array", "np.asarray") and e.args:
+        e = e.args[0]
+    return e
+
+
+def dehomog_pair(r: R, chk, quals: List[str], rule="DEHOMOG-PAIR", floor: int = 1):
+    """a rational curve is (sum_i w_i P_i N_i) / (sum_i w_i N_i): control points obtained as numerator_i / w_i (or
+    invert(w_i) * numerator_i) for the elements w_i of a list W only make sense together with the weights W.  Where a function
+    computes points that way and gives points and weights to the same object (constructor call or two attribute stores), the
+    weights have to be that same W — not the weights of the source curve, not abs(W), not a rescaled copy."""
+    total = 0
+    for q in quals:
+        ctx = r.root(q)
+        fi = ctx.fi
+        defs: Dict[str, List[ast.expr]] = {}
+        for a in ast.walk(fi.node):
+            if isinstance(a, ast.Assign) and len(a.targets) == 1 and isinstance(a.targets[0], ast.Name):
+                defs.setdefault(a.targets[0].id, []).append(a.value)
+
+        def resolve(e, depth=0):
+            """a name through plain copies / container conversions to the name it stands for"""
+            e = _strip_wrappers(e)
+            if isinstance(e, ast.Name) and depth < 4:
+                ds = defs.get(e.id, [])
+                if len(ds) == 1:
+                    inner = _strip_wrappers(ds[0])
+                    if isinstance(inner, ast.Name):
+                        return resolve(inner, depth + 1)
+            return e
+
+        def divisor_list(comp):
+            """the list whose elements divide (or whose inverses multiply) the elements of a comprehension; None if there is none"""
+            comp = _strip_wrappers(comp)
+            if not isinstance(comp, (ast.ListComp, ast.GeneratorExp)) or len(comp.generators) != 1:
+                return None
+            g = comp.generators[0]
+            pairs = []
+            if isinstance(g.iter, ast.Call) and seg(g.iter.func) == "zip" and isinstance(g.target, ast.Tuple) and len(g.target.elts) == len(g.iter.args):
+                pairs = [(t_.id, a_) for t_, a_ in zip(g.target.elts, g.iter.args) if isinstance(t_, ast.Name)]
+            divs = set()
+            for x in ast.walk(comp.elt):
+                if isinstance(x, ast.BinOp) and isinstance(x.op, ast.Div) and isinstance(x.right, ast.Name):
+                    divs.add(x.right.id)
+                if isinstance(x, ast.Call) and seg(x.func) == "invert" and x.args and isinstance(x.args[0], ast.Name):
+                    divs.add(x.args[0].id)
+                if isinstance(x, ast.Call) and seg(x.func) == "invert" and x.args and isinstance(x.args[0], ast.Subscript) and isinstance(x.args[0].value, ast.Name):
+                    return seg(resolve(x.args[0].value))
+            for tname, src in pairs:
+                if tname in divs:
+                    return seg(resolve(src))
+            return None
+
+        # points computed by division: name -> divisor list name
+        divided: Dict[str, str] = {}
+        for name, ds in defs.items():
+            for d in ds:
+                w_ = divisor_list(d)
+                if w_ is not None:
+                    divided[name] = w_
+        # explicit loops: `inv = invert(W[i])` ... `points.append(...)`
+        for lp in ast.walk(fi.node):
+            if isinstance(lp, ast.For):
+                ws = [x.args[0].value for x in ast.walk(lp) if isinstance(x, ast.Call) and seg(x.func) == "invert" and x.args and isinstance(x.args[0], ast.Subscript) and isinstance(x.args[0].value, ast.Name)]
+                apps = [x.func.value.id for x in ast.walk(lp) if isinstance(x, ast.Call) and isinstance(x.func, ast.Attribute) and x.func.attr == "append" and isinstance(x.func.value, ast.Name)]
+                if ws and apps:
+                    for nm in apps:
+                        divided.setdefault(nm, seg(resolve(ws[0])))
+        # objects that receive points and weights: (points expression, weights expression, node)
+        pairs_pw = []
+        blocks = []
+        for x in ast.walk(fi.node):
+            for fld in ("body", "orelse", "finalbody"):
+                b = getattr(x, fld, None)
+                if isinstance(b, list) and b and isinstance(b[0], ast.stmt):
+                    blocks.append(b)
+        for b in blocks:
+            stores = [a for a in b if isinstance(a, ast.Assign) and len(a.targets) == 1 and isinstance(a.targets[0], ast.Attribute) and a.targets[0].attr in ("ctrlpoints", "weights") and isinstance(a.targets[0].value, ast.Name)]
+            for pst in [a for a in stores if a.targets[0].attr == "ctrlpoints"]:
+                for wst in [a for a in stores if a.targets[0].attr == "weights" and a.targets[0].value.id == pst.targets[0].value.id]:
+                    if not (isinstance(wst.value, ast.Constant) and wst.value.value is None):
+                        pairs_pw.append((pst.value, wst.value, wst))
+        for a in ast.walk(fi.node):
+            if isinstance(a, ast.Call) and (seg(a.func) in ("Curve",) or seg(a.func).endswith(".__class__")) and len(a.args) == 3:
+                pairs_pw.append((a.args[1], a.args[2], a))
+                # weights given again afterwards to the object just built
+                for b in blocks:
+                    for k_, st in enumerate(b):
+                        if isinstance(st, ast.Assign) and st.value is a and len(st.targets) == 1 and isinstance(st.targets[0], ast.Name):
+                            for later in b[k_ + 1:]:
+                                if isinstance(later, ast.Assign) and len(later.targets) == 1 and isinstance(later.targets[0], ast.Attribute) and later.targets[0].attr == "weights" and isinstance(later.targets[0].value, ast.Name) and later.targets[0].value.id == st.targets[0].id:
+                                    pairs_pw.append((a.args[1], later.value, later))
+        for pexpr, wexpr, node in pairs_pw:
+            pres = resolve(pexpr)
+            wlist = divided.get(pres.id) if isinstance(pres, ast.Name) else divisor_list(pexpr)
+            if wlist is None:
+                continue
+            total += 1
+            wname = seg(resolve(wexpr))
+            ok = wname == wlist
+            chk.ob(rule, f"{q}: the points `{seg(pres, 30)}` (divided by the elements of `{wlist}`) are stored with those weights", ok, loc=r.loc(ctx, node),
+                   detail="" if ok else f"{q}: the control points `{seg(pres, 30)}` are the numerators divided by the elements of `{wlist}`, but the weights given to the same curve are `{seg(wexpr, 40)}`: w_i * P_i is then no longer the transformed numerator, so the rational curve is not the one that was computed (wrong at every parameter where the two weight lists differ)",
+                   func=q, construct=f"points divided by {wlist}, weights stored {seg(wexpr, 30)}")
+    chk.floor(rule, f"dehomogenised control points stored with weights in {', '.join(x.split('.')[-1] for x in quals)}", total, floor)
+    return total
+
+
+# ------------------------------------------------------------------------------------------------
+# NONE-DEFAULT: "no argument" is `None`, not "anything falsy"
+def none_default(r: R, chk, quals: List[str], rule="NONE-DEFAULT", floor: int = 1):
+    """a parameter whose default is None and whose other values are sequences / numbers (an empty cut set, 0 nodes, tolerance 0 are
+    legal requests of their own) is tested with `is None` / `is not None` where the default is substituted: a truthiness test
+    (`if not nodes:`) sends the empty sequence down the no-argument path"""
+    n = 0
+    for q in quals:
+        ctx = r.root(q)
+        fi = ctx.fi
+        opt = [p for p in fi.params if isinstance(fi.defaults.get(p), ast.Constant) and fi.defaults[p].value is None]
+        for p in opt:
+            for t in ctx.cfg.nodes:
+                if t.kind != "test" or not isinstance(t.ast, ast.expr):
+                    continue
+                # conjuncts / disjuncts of the test
+                parts = [t.ast]
+                while any(isinstance(x, ast.BoolOp) for x in parts):
+                    parts = [v for x in parts for v in (x.values if isinstance(x, ast.BoolOp) else [x])]
+                for part in parts:
+                    neg = part
+                    while isinstance(neg, ast.UnaryOp) and isinstance(neg.op, ast.Not):
+                        neg = neg.operand
+                    if isinstance(neg, ast.Compare) and isinstance(neg.left, ast.Name) and neg.left.id == p and isinstance(neg.ops[0], (ast.Is, ast.IsNot)):
+                        n += 1
+                        chk.ob(rule, f"{q}: the default of `{p}` is recognised by `{seg(part, 30)}`", True, loc=r.loc(ctx, t.ast))
+                    elif isinstance(neg, ast.Name) and neg.id == p:
+                        # is the parameter still the caller's value here (not yet rebound)?
+                        rebound = [a for a in r.stmt_nodes(ctx) if isinstance(a.ast, ast.Assign) and any(isinstance(x, ast.Name) and x.id == p for x in a.ast.targets) and ctx.cfg.dominates(a.id, t.id)]
+                        if rebound:
+                            continue
+                        n += 1
+                        chk.ob(rule, f"{q}: the default of `{p}` is recognised by an identity test", False, loc=r.loc(ctx, t.ast),
+                               detail=f"{q}: `{seg(t.ast, 40)}` tests the truth value of `{p}`, whose default is None: an explicitly empty / zero argument (`{fi.name}([])`) is treated like no argument at all — for split() that means the Bezier pieces between all knots instead of the one piece the empty cut set defines",
+                               func=q, construct=f"truthiness test of the optional parameter {p}")
+    chk.floor(rule, f"tests of optional (default None) parameters in {', '.join(x.split('.')[-1] for x in quals)}", n, floor)
+    return n
+
+
+# ------------------------------------------------------------------------------------------------
+# ITER-ONCE: an argument that may be a one-pass iterable is materialised before anything else iterates it
+def iter_once(r: R, chk, qual: str, param: str, rule="ITER-ONCE"):
+    """`curve(u for u in nodes)`, `map(...)`, `iter(...)` are sequences of nodes too, but can be walked once.  Until the parameter
+    has been rebound to `tuple(param)` / `list(param)`, it may not be handed to a call that iterates it (a validity check, a
+    conversion of another kind): the later `tuple(param)` would be empty and zero points come back without an error."""
+    ctx = r.root(qual)
+    fi = ctx.fi
+    mats = [n for n in r.stmt_nodes(ctx) if isinstance(n.ast, ast.Assign) and any(isinstance(t, ast.Name) and t.id == param for t in n.ast.targets) and isinstance(n.ast.value, ast.Call) and seg(n.ast.value.func) in ("tuple", "list") and n.ast.value.args and isinstance(n.ast.value.args[0], ast.Name) and n.ast.value.args[0].id == param]
+    chk.floor(rule, f"`{param} = tuple({param})` in {qual}", len(mats), 1)
+    bad = []
+    for n in r.stmt_nodes(ctx):
+        if any(n.id == m_.id for m_ in mats) or not isinstance(n.ast, (ast.stmt, ast.expr)):
+            continue
+        # reached before (not after) every materialisation?
+        if any(ctx.cfg.dominates(m_.id, n.id) for m_ in mats):
+            continue
+        for c in ast.walk(n.ast):
+            if isinstance(c, ast.Call) and any(isinstance(a, ast.Name) and a.id == param for a in list(c.args) + [k.value for k in c.keywords]) and seg(c.func) not in ("isinstance", "type", "id", "callable", "hasattr", "tuple", "list"):
+                bad.append((n, c))
+            if isinstance(c, (ast.For, ast.comprehension)) and isinstance(c.iter, ast.Name) and c.iter.id == param:
+                bad.append((n, c.iter))
+    ok = not bad
+    chk.ob(rule, f"{qual}: `{param}` is not iterated before it is materialised", ok, loc=r.loc(ctx, bad[0][1]) if bad else r.loc(ctx, mats[0].ast),
+           detail="" if ok else f"{qual}: `{seg(bad[0][1], 50)}` walks `{param}` before `{param} = tuple({param})`: a generator / map / iterator argument is exhausted there, the tuple built afterwards is empty and the call returns zero points for n nodes instead of one point per node",
+           func=qual, construct=f"{param} consumed before materialisation")
+
+
+# ------------------------------------------------------------------------------------------------
+# NO-REORDER: the k-th column belongs to the k-th node the caller gave
+def no_reorder(r: R, chk, qual: str, param: str, rule="NO-REORDER"):
+    """the caller pairs points[k] with nodes[k]; a helper that only sees the nodes must keep their order: no sorted(), reversed(),
+    set(), np.sort, np.unique, .sort() on the way from the parameter to the evaluation"""
+    ctx = r.root(qual)
+    fi = ctx.fi
+    order_changing = ("sorted", "reversed", "set", "frozenset", "np.sort", "np.unique", "np.flip", "dict.fromkeys")
+    bad = []
+    tainted = {param}
+    ch = True
+    while ch:
+        ch = False
+        for a in ast.walk(fi.node):
+            if isinstance(a, ast.Assign) and len(a.targets) == 1 and isinstance(a.targets[0], ast.Name) and a.targets[0].id not in tainted and any(isinstance(x, ast.Name) and x.id in tainted for x in ast.walk(a.value)) and isinstance(_strip_wrappers(a.value), ast.Name):
+                tainted.add(a.targets[0].id)
+                ch = True
+    for c in ast.walk(fi.node):
+        if isinstance(c, ast.Call):
+            fn = seg(c.func)
+            if fn in order_changing and c.args and any(isinstance(x, ast.Name) and x.id in tainted for x in ast.walk(c.args[0])):
+                bad.append(c)
+            if isinstance(c.func, ast.Attribute) and c.func.attr in ("sort", "reverse") and isinstance(c.func.value, ast.Name) and c.func.value.id in tainted:
+                bad.append(c)
+    ok = not bad
+    chk.ob(rule, f"{qual}: `{param}` keeps the caller's order", ok, loc=r.loc(ctx, bad[0]) if bad else r.loc(ctx, fi.node),
+           detail="" if ok else f"{qual}: `{seg(bad[0], 40)}` reorders `{param}`: the columns of the result follow the new order while the caller multiplies by its data in the old one, so every value is attached to the wrong parameter whenever the nodes are not given in ascending order",
+           func=qual, construct=f"{param} reordered")
+
+
+# ------------------------------------------------------------------------------------------------
+# NEG-ZERO-SLICE: x[a:-n] with n == 0 is empty, not "up to the end"
+_NEGSLICE_CONTROL = "def control(self):\n    return self[self.degree : -self.degree]\n"
+
+
+def _neg_slices(fn):
+    out = []
+    for s_ in ast.walk(fn):
+        if isinstance(s_, ast.Subscript) and isinstance(s_.slice, ast.Slice) and isinstance(s_.slice.upper, ast.UnaryOp) and isinstance(s_.slice.upper.op, ast.USub):
+            inner = s_.slice.upper.operand
+            if not (isinstance(inner, ast.Constant) and isinstance(inner.value, int) and inner.value > 0):
+                out.append(s_)
+    return out
+
+
+def neg_zero_slice(r: R, chk, quals: List[str], rule="NEG-ZERO-SLICE"):
+    """a slice bound `-n` counts from the end only for n > 0: for n = 0 (`degree` of a piecewise constant vector, an empty
+    margin) `x[a:-0]` is `x[a:0]`, the empty sequence.  A bound of that form whose operand is not a positive literal has to be
+    written from the front (`len(x) - n`)."""
+    ctl = _neg_slices(ast.parse(_NEGSLICE_CONTROL).body[0])
+    n = 0
+    for q in quals:
+        ctx = r.A.roots.get(q)
+        if ctx is None:
+            continue
+        n += sum(1 for s_ in ast.walk(ctx.fi.node) if isinstance(s_, ast.Subscript) and isinstance(s_.slice, ast.Slice))
+        for s_ in _neg_slices(ctx.fi.node):
+            chk.ob(rule, f"{q}: `{seg(s_, 40)}` does not end at `-0`", False, loc=r.loc(ctx, s_),
+                   detail=f"{q}: the upper bound of `{seg(s_, 50)}` is the negation of a quantity that can be 0 (degree 0): `x[a:-0]` is the empty sequence, so for a piecewise constant vector no knot is left and the operation raises / returns nothing",
+                   func=q, construct=f"slice bound -{seg(s_.slice.upper.operand, 20)} may be -0")
+    chk.ob(rule, f"no slice ends at the negation of a possibly-zero quantity ({n} slices in {len(quals)} functions; positive control {'recognised' if ctl else 'MISSING'})", bool(ctl), loc="",
+           detail="" if ctl else "the positive control of the rule is not recognised any more")
+    return n
+
+
+# ------------------------------------------------------------------------------------------------
+# NAN-GUARD: the iterate that is returned has been tested by something a NaN fails
+def nan_guard(r: R, chk, qual: str, rule="NAN-GUARD"):
+    """a Newton step 0/0 makes the iterate NaN; the loop is left on purpose (`not abs(diff) >= tol`), and the iterate must not be
+    handed back (evaluating a curve at NaN does not terminate).  On every path to a return of the iterate a test holds that a NaN
+    cannot pass: `np.isfinite(x)` true, `np.isnan(x)` false, or an order comparison of x that came out true."""
+    from .c08 import path_facts
+
+    ctx = r.root(qual)
+    fi = ctx.fi
+    # the iterate: the name updated by `x -= ...` / `x = x - ...` inside the loop
+    upd = [a.target.id for a in ast.walk(fi.node) if isinstance(a, ast.AugAssign) and isinstance(a.target, ast.Name) and isinstance(a.op, (ast.Sub, ast.Add))]
+    upd += [a.targets[0].id for a in ast.walk(fi.node) if isinstance(a, ast.Assign) and len(a.targets) == 1 and isinstance(a.targets[0], ast.Name) and isinstance(a.value, ast.BinOp) and isinstance(a.value.op, (ast.Sub, ast.Add)) and isinstance(a.value.left, ast.Name) and a.value.left.id == a.targets[0].id]
+    names = sorted(set(upd) & set(fi.params) if set(upd) & set(fi.params) else set(upd))
+    chk.floor(rule, f"iterate of {qual}", len(names), 1)
+    nret = 0
+    for x in names:
+        for n in r.stmt_nodes(ctx):
+            if not (isinstance(n.ast, ast.Return) and n.ast.value is not None and any(isinstance(y, ast.Name) and y.id == x for y in ast.walk(n.ast.value))):
+                continue
+            nret += 1
+            facts = path_facts(ctx, n.id)
+            ok = False
+            for txt, pol in facts:
+                t = txt.replace(" ", "")
+                if pol and (t in (f"np.isfinite({x})", f"math.isfinite({x})")):
+                    ok = True
+                if not pol and t in (f"np.isnan({x})", f"math.isnan({x})"):
+                    ok = True
+            chk.ob(rule, f"{qual}: `{seg(n.ast, 30)}` only for an iterate that is not NaN", ok, loc=r.loc(ctx, n.ast),
+                   detail="" if ok else f"{qual}: `{seg(n.ast, 30)}` is reached without a test that a NaN fails (the tests on the way: {', '.join(sorted(('' if p_ else 'not ') + t_ for t_, p_ in facts)) or 'none'}): a 0/0 Newton step (the point at a centre of curvature) makes `{x}` NaN, it is returned as a candidate and the evaluation of the curve at NaN does not terminate",
+                   func=qual, construct=f"iterate {x} returned without a NaN-rejecting test")
+    chk.floor(rule, f"returns of the iterate in {qual}", nret, 1)
